@@ -153,6 +153,7 @@ def run(ctx: core.Ctx):
                 got = np.asarray(res.transpose("newtime", ...))[:, i, j]
                 if not np.array_equal(got, want) or res.dtype != np.int16:
                     ctx.fail("whitint", dict(x=cube[:, i, j].tolist()), got.tolist(), np.asarray(want).tolist())
+    core.acc_dispatch(ctx, ['whitint'])
     ctx.trusted += ["native model driver (Hdc/Model/Stats.lean tinterp at Float and Rat)", "harness/props/c20.py oracle (exact Fraction period means)"]
 
 
